@@ -1,9 +1,11 @@
 package props
 
 import (
+	"context"
 	"fmt"
 	"strings"
 
+	wire "github.com/jeroenrinzema/psql-wire"
 	"verif/engine/explore"
 	"verif/engine/harness"
 	"verif/engine/memnet"
@@ -171,7 +173,76 @@ func histNames(h []xletter) []string {
 	return out
 }
 
+// c06RunBlank: the parser of this server accepts every text, the blank one included (a driver's "is the connection
+// alive" probe prepares the empty statement). A Parse of a blank text is a Parse: ParseComplete, the parser is
+// consulted, the name is defined; Bind / Describe / Execute / Sync get their designated replies.
+func c06RunBlank(name, text string, before bool) explore.Result {
+	var res explore.Result
+	res.Outcome = "plain"
+	res.Key = fmt.Sprint("blank-parse", name, text, before)
+	var parsed []string
+	parse := func(ctx context.Context, q string) (wire.PreparedStatements, error) {
+		parsed = append(parsed, q)
+		return wire.Prepared(wire.NewStatement(func(ctx context.Context, w wire.DataWriter, p []wire.Parameter) error {
+			return w.Complete("TAG[" + q + "]")
+		})), nil
+	}
+	one, err := harness.StartOne(parse)
+	if err != nil {
+		res.Engine = err.Error()
+		return res
+	}
+	defer one.Stop()
+	one.Step(pgproto.Startup("user", "u"))
+	if before {
+		one.Step(pgproto.Cat(pgproto.Parse(name, "SELECT 1"), pgproto.Sync()))
+	}
+	parsed = nil
+	steps := []struct {
+		what string
+		msg  []byte
+		want string
+	}{
+		{"Parse", pgproto.Parse(name, text), "1"},
+		{"Bind", pgproto.Bind("", name, nil, nil, nil), "2"},
+		{"Describe(S)", pgproto.Describe('S', name), "tn"},
+		{"Execute", pgproto.Execute("", 0), "C"},
+		{"Sync", pgproto.Sync(), "Z"},
+	}
+	for _, st := range steps {
+		out, _ := one.Step(st.msg)
+		ms, perr := pgproto.ParseBackend(out)
+		if perr != nil {
+			res.Fail("reply-grammar", perr.Error())
+			return res
+		}
+		if k := pgproto.Kinds(ms); k != st.want {
+			res.Fail("unexpected-reply", fmt.Sprintf("statement %q parsed with the text %q (a text was stored under the name before: %v): %s answered %q, designated reply %q", name, text, before, st.what, k, st.want))
+			return res
+		}
+		if st.what == "Execute" && ms[0].Tag != "TAG["+text+"]" {
+			res.Fail("unexpected-reply", fmt.Sprintf("statement %q parsed with the text %q (an earlier text under the name: %v): Execute ran %q", name, text, before, ms[0].Tag))
+		}
+	}
+	if len(parsed) != 1 || parsed[0] != text {
+		res.Fail("callback-mismatch", fmt.Sprintf("statement %q parsed with the text %q: the parser was consulted with %q", name, text, parsed))
+	}
+	res.Trans = []string{"ready|parse(blank)|parsed"}
+	return res
+}
+
 func c06Enumerate(tier string, emit explore.Emit) {
+	for _, name := range []string{"", "s"} {
+		for _, text := range []string{"", " ", "\n\t ", ";"} {
+			for _, before := range []bool{false, true} {
+				name, text, before := name, text, before
+				emit(explore.Case{Family: "full-alphabet", Size: 5, Desc: func() any {
+					return map[string]any{"statement": name, "parse_text": text, "name_defined_before": before, "parser": "accepts every text"}
+				},
+					Run: func() explore.Result { return c06RunBlank(name, text, before) }})
+			}
+		}
+	}
 	full, core, errcore := c06Alphabet()
 	b := c06Bounds(tier)
 	// core16 ⊂ full and errcore8 ⊂ core16, so histories no longer than the
